@@ -300,6 +300,51 @@ def r6_pin_bytes(ctx, prog):
                 r.ok(fname, site, 'line %s' % mine[0][3], file=f['file'], line=mine[0][3])
 
 
+def r7_every_settable_pin_logs_in(ctx, prog):
+    """"A PIN logs a user in iff it equals the PIN most recently set": every length C_InitToken / C_InitPIN / C_SetPIN accept (MIN_PIN_LEN .. MAX_PIN_LEN, both ends) must be able to
+    log in.  The functions on the login path are evaluated with the PIN length fixed to the boundary values: a path that reports success must remain - a length test on the login side
+    that is stricter than the one on the setting side locks out a PIN the token accepted."""
+    r = ctx.rule('C04.R7', 'every PIN length the setters accept can log in (the login path rejects no length inside MIN_PIN_LEN..MAX_PIN_LEN)', floor=12, engine='E1 finite-domain evaluation at the boundary lengths')
+    lo, hi = macro(prog, 'MIN_PIN_LEN'), macro(prog, 'MAX_PIN_LEN')
+    targets = [('SecureDataManager::login', 0, 'true'), ('SecureDataManager::loginSO', 0, 'true'), ('SecureDataManager::loginUser', 0, 'true'),
+               ('SecureDataManager::reAuthenticate', 0, 'true'), ('Token::loginSO', 0, 'CKR_OK'), ('Token::loginUser', 0, 'CKR_OK')]
+    for q, pi, okv in targets:
+        for f in prog.fns(q):
+            if f['body'] is None:
+                continue
+            ctx.analysed(f)
+            pn = param_name(f, pi)
+            for ln in (lo, lo + 1, hi - 1, hi):
+                o = Outcomes(f, prog, cenv={'size(%s)' % pn: ln})
+                o.CAP = 256
+                o.go()
+                r.paths += len(o.outcomes)
+                site = 'PIN of %d bytes' % ln
+                good = [oc for oc in o.outcomes if str(oc.get('ret')) in (okv, '1', 'CKR_OK') or (oc.get('ret') not in ('false', '0') and not str(oc.get('ret')).startswith('CKR_') and okv == 'true')]
+                if not o.outcomes:
+                    r.undecided(f['qname'], site, 'no path', file=f['file'], line=f['line'])
+                elif not good:
+                    r.violation(f['qname'], site, 'with a PIN of %d bytes (inside the advertised range %d..%d, accepted by C_InitToken / C_InitPIN / C_SetPIN) every path fails: the PIN that was set can never log in again' % (ln, lo, hi),
+                                file=f['file'], line=o.outcomes[0]['line'], path=o.outcomes[0]['path'])
+                else:
+                    r.ok(f['qname'], site, '%d of %d paths can succeed' % (len(good), len(o.outcomes)), file=f['file'], line=f['line'])
+    # C_Login: the length the API hands on
+    f = prog.fn('SoftHSM::C_Login')
+    ctx.analysed(f)
+    pl = param_name(f, 3)
+    for ln in (lo, hi):
+        o = Outcomes(f, prog, cenv={pl: ln, 'isInitialised': 1, param_name(f, 2): 1})
+        o.CAP = 256
+        o.go()
+        r.paths += len(o.outcomes)
+        site = 'PIN of %d bytes' % ln
+        good = [oc for oc in o.outcomes if may_succeed(oc)]
+        if not good:
+            r.violation(f['qname'], site, 'C_Login cannot answer CKR_OK for a PIN of %d bytes, a length inside the advertised range' % ln, file=f['file'], line=f['line'])
+        else:
+            r.ok(f['qname'], site, '%d of %d paths can succeed' % (len(good), len(o.outcomes)), file=f['file'], line=f['line'])
+
+
 def run(ctx):
     prog = ctx.prog('ossl-file')
     r1_roles(ctx, prog)
@@ -309,6 +354,7 @@ def run(ctx):
     from rules import c14
     c14.r2_createtoken(ctx, prog, rule_id='C04.R5')
     r6_pin_bytes(ctx, prog)
+    r7_every_settable_pin_logs_in(ctx, prog)
 
 
 MUTANTS = [
